@@ -113,6 +113,110 @@ Proof. intros. eapply FaultProofs.okp_known. apply root_mkdir_all_ok; assumption
 Example C12_mode_examples : N.ldiff 511 1023 = 0 /\ N.ldiff 1023 1023 = 0 /\ N.ldiff 1024 1023 <> 0 /\ N.ldiff 16877 1023 <> 0.
 Proof. repeat split; try reflexivity; discriminate. Qed.
 
+(* ---- the functional statement, on the DYNAMIC kernel model (theories/Dyn.v) ---------------------
+   [mk_spec] is a pure function of the tree: for each remaining component, mkdirat's effect
+   (EEXIST tolerated) and then the directory now under that name, or the errno that ends the loop.
+   1. the creation loop, executed, computes it; 2. what it does to any tree; 3. the partial lookup
+   of the kernel backend as a pure function ([kpartial]: the first ancestor of the path that the
+   kernel's in-root walk resolves); 4. RootRef::mkdir_all end to end on the kernel backend. *)
+From PV Require Dyn DynProofs DynMkdir DynMkdirAll.
+
+Theorem C12_loop_computes_spec :
+  forall rp fz, fz <> 0%nat -> forall mode ps s t cur o,
+  DynMkdir.closed2 s -> Static.tget t cur = Some o -> (o < Dyn.NPB s)%nat -> Forall (fun p => Dyn.plain p = true) ps ->
+  exists t',
+    (forall x ob, x <> cur -> Static.tget t x = Some ob -> Static.tget t' x = Some (DynMkdir.rel s (fst (DynMkdir.mk_spec s o ps)) ob)) /\
+    match snd (DynMkdir.mk_spec s o ps) with
+    | inl c => exists fd,
+        Dyn.drun rp {| Dyn.ds := s; Dyn.dt := t; Dyn.dseen := [] |} (mk_parts fz mode ps cur) =
+          Dyn.DDone {| Dyn.ds := fst (DynMkdir.mk_spec s o ps); Dyn.dt := t'; Dyn.dseen := [] |} (Ok fd) /\
+        Static.tget t' fd = Some c /\ (c < Dyn.NPB (fst (DynMkdir.mk_spec s o ps)))%nat /\
+        (forall x, StaticBal.indom t' x -> x = fd \/ (StaticBal.indom t x /\ x <> cur)) /\ (ps = [] -> fd = cur)
+    | inr e =>
+        Dyn.drun rp {| Dyn.ds := s; Dyn.dt := t; Dyn.dseen := [] |} (mk_parts fz mode ps cur) =
+          Dyn.DDone {| Dyn.ds := fst (DynMkdir.mk_spec s o ps); Dyn.dt := t'; Dyn.dseen := [] |} (Err (OsError e)) /\
+        (forall x, StaticBal.indom t' x -> StaticBal.indom t x /\ x <> cur)
+    end.
+Proof. exact DynMkdir.mk_parts_dyn. Qed.
+
+(* "nothing else in the tree was added, removed or modified; when it fails nothing outside the
+   requested chain was created; every component now exists": [extends] = the old tree plus new
+   DIRECTORIES entered under names that did not exist; the result is the plain descent along the
+   components in the new tree *)
+Theorem C12_spec_post :
+  forall ps s o, DynMkdir.closed2 s -> (o < length (FSModel.kinds s))%nat -> Forall (fun p => Dyn.plain p = true) ps ->
+  DynMkdir.extends s (fst (DynMkdir.mk_spec s o ps)) /\ DynMkdir.closed2 (fst (DynMkdir.mk_spec s o ps)) /\
+  match snd (DynMkdir.mk_spec s o ps) with
+  | inl c => DynMkdir.descend_dirs (fst (DynMkdir.mk_spec s o ps)) o ps = Some c /\
+             (FSModel.is_dir s o = true -> FSModel.is_dir (fst (DynMkdir.mk_spec s o ps)) c = true)
+  | inr _ => True
+  end.
+Proof. exact DynMkdir.mk_spec_post. Qed.
+
+Theorem C12_extends_changes_nothing_else :
+  forall s s', DynMkdir.extends s s' ->
+  (forall o, (o < length (FSModel.kinds s))%nat -> FSModel.kind_of s' o = FSModel.kind_of s o) /\
+  (forall d n c, FSModel.lookup s d n = Some c -> FSModel.lookup s' d n = Some c) /\
+  (length (FSModel.kinds s) <= length (FSModel.kinds s'))%nat /\
+  (exists new, FSModel.ents s' = FSModel.ents s ++ new /\
+               Forall (fun e => (length (FSModel.kinds s) <= Dyn.ent_obj e)%nat /\ FSModel.kind_of s' (Dyn.ent_obj e) = FSModel.KDir) new).
+Proof. exact DynMkdir.extends_frame. Qed.
+
+Theorem C12_partial_lookup_kernel_backend :
+  forall s rp fz, fz <> 0%nat -> StaticProofs.closed s -> forall t root path rflags,
+  Static.tget t root = Some FSModel.ROOT -> has_nul path = false ->
+  Static.run s rp t (k_resolve_partial fz true root path rflags false) =
+  match DynMkdirAll.kpartial s path (has (N.lor OPENAT2_RESOLVE_RESOLVE rflags) RESOLVE_NO_SYMLINKS) with
+  | DynMkdirAll.KComplete o => Static.Done ((Static.fresh t, o) :: t) (Ok (Complete (Static.fresh t)))
+  | DynMkdirAll.KPartial o rem l => Static.Done ((Static.fresh t, o) :: t) (Ok (Partial (Static.fresh t) rem (OsError l)))
+  | DynMkdirAll.KFail e => Static.Done t (Err (OsError e))
+  end.
+Proof. exact DynMkdirAll.run_k_resolve_partial. Qed.
+
+Theorem C12_mkdir_all_kernel_backend :
+  forall s rp fz pfuel gh ps rs, fz <> 0%nat -> DynMkdir.closed2 s ->
+  ph_mnt gh = Some Static.PROC_MNT -> ph_openat2 gh = true -> rs_kernel rs = true ->
+  forall t root path mode o remaining exp,
+  Static.tget t root = Some FSModel.ROOT -> Static.tget t (ph_fd gh) = Some (Static.PB s) -> has_nul path = false ->
+  N.ldiff mode MKDIR_ALL_MASK1 = 0 -> N.ldiff mode MKDIR_ALL_MASK2 = 0 ->
+  ((DynMkdirAll.kpartial s path (has (N.lor OPENAT2_RESOLVE_RESOLVE (rs_flags rs)) RESOLVE_NO_SYMLINKS) = DynMkdirAll.KComplete o /\ remaining = None) \/
+   (exists rm, DynMkdirAll.kpartial s path (has (N.lor OPENAT2_RESOLVE_RESOLVE (rs_flags rs)) RESOLVE_NO_SYMLINKS) = DynMkdirAll.KPartial o rm ENOENT /\ remaining = Some rm)) ->
+  FSModel.is_dir s o = true -> Static.find_path s o = Some exp -> N.leb READLINK_BUF (N.of_nat (length (Static.render rp exp))) = false ->
+  existsb is_dotdot (DynMkdirAll.parts_of remaining) = false ->
+  exists t',
+    match snd (DynMkdir.mk_spec s o (DynMkdirAll.parts_of remaining)) with
+    | inl c => exists fd,
+        Dyn.drun rp {| Dyn.ds := s; Dyn.dt := t; Dyn.dseen := [] |} (root_mkdir_all fz true (S pfuel) gh ps rs root path mode) =
+          Dyn.DDone {| Dyn.ds := fst (DynMkdir.mk_spec s o (DynMkdirAll.parts_of remaining)); Dyn.dt := t'; Dyn.dseen := [] |} (Ok fd) /\
+        Static.tget t' fd = Some c /\ (forall x, StaticBal.indom t' x -> x = fd \/ StaticBal.indom t x)
+    | inr e =>
+        Dyn.drun rp {| Dyn.ds := s; Dyn.dt := t; Dyn.dseen := [] |} (root_mkdir_all fz true (S pfuel) gh ps rs root path mode) =
+          Dyn.DDone {| Dyn.ds := fst (DynMkdir.mk_spec s o (DynMkdirAll.parts_of remaining)); Dyn.dt := t'; Dyn.dseen := [] |} (Err (OsError e)) /\
+        (forall x, StaticBal.indom t' x -> StaticBal.indom t x)
+    end.
+Proof. exact DynMkdirAll.mkdir_all_kernel. Qed.
+
+(* executed (non-vacuity): abs -> /a; mkdir_all("abs/x/y/z") on both backends creates a/x, a/x/y, a/x/y/z and
+   returns the last one; the pure functions give the same tree and object; a file in the way ends the loop
+   with ENOTDIR after a/x was created (what was created lies on the chain) *)
+Example C12_dynamic_runs :
+  let s := FSModel.build [FSModel.MkDir [b "a"]; FSModel.MkFile [b "a"; b "f"]; FSModel.MkLnk [b "abs"] (b "/a")] in
+  let gh := {| ph_fd := 4; ph_mnt := Some Static.PROC_MNT; ph_subset := false; ph_openat2 := true |} in
+  let st := {| Dyn.ds := s; Dyn.dt := [(5%Z, FSModel.ROOT); (4%Z, Static.PB s)]; Dyn.dseen := [] |} in
+  let emu := {| rs_kernel := false; rs_flags := 0 |} in let kern := {| rs_kernel := true; rs_flags := 0 |} in
+  let tree {A} (o : Dyn.doutcome A) := match o with Dyn.DDone st' _ => map (fun e => fst (fst e)) (Dyn.dump (Dyn.ds st')) | _ => [] end in
+  let obj (o : Dyn.doutcome (result Z ekind)) := match o with Dyn.DDone st' (Ok fd) => Static.tget (Dyn.dt st') fd | _ => None end in
+  let want := [[b "a"]; [b "a"; b "f"]; [b "a"; b "x"]; [b "a"; b "x"; b "y"]; [b "a"; b "x"; b "y"; b "z"]; [b "abs"]] in
+  tree (Dyn.drun (b "/srv/root") st (root_mkdir_all 1 true 2 gh 1 kern 5 (b "abs/x/y/z") 493)) = want /\
+  tree (Dyn.drun (b "/srv/root") st (root_mkdir_all 1 true 2 gh 1 emu 5 (b "abs/x/y/z") 493)) = want /\
+  obj (Dyn.drun (b "/srv/root") st (root_mkdir_all 1 true 2 gh 1 kern 5 (b "abs/x/y/z") 493)) = Some 6%nat /\
+  DynMkdirAll.kpartial s (b "abs/x/y/z") false = DynMkdirAll.KPartial 1 (b "x/y/z") ENOENT /\
+  map (fun e => fst (fst e)) (Dyn.dump (fst (DynMkdir.mk_spec s 1 [b "x"; b "y"; b "z"]))) = want /\
+  snd (DynMkdir.mk_spec s 1 [b "x"; b "y"; b "z"]) = inl 6%nat /\
+  snd (DynMkdir.mk_spec s 1 [b "x"; b "f"; b "z"]) = inl 6%nat /\
+  snd (DynMkdir.mk_spec s 1 [b "f"; b "z"]) = inr ENOTDIR.
+Proof. vm_compute. repeat split. Qed.
+
 Print Assumptions C12_mode_checked.
 Print Assumptions C12_calls_disciplined.
 Print Assumptions C12_balanced.
@@ -121,3 +225,8 @@ Print Assumptions C12_balanced_all_backends.
 Print Assumptions C12_creation_is_one_chain.
 Print Assumptions C12_loop.
 Print Assumptions C12_chain_monitor_sound.
+Print Assumptions C12_loop_computes_spec.
+Print Assumptions C12_spec_post.
+Print Assumptions C12_extends_changes_nothing_else.
+Print Assumptions C12_partial_lookup_kernel_backend.
+Print Assumptions C12_mkdir_all_kernel_backend.
